@@ -589,7 +589,7 @@ func ruleC13StoreResult(c *Ctx) {
 
 func ruleC13ConsistentReads(c *Ctx) {
 	u := c.U1
-	c.rule("C13.consistent-reads", "every GetItemInput/QueryInput has ConsistentRead=true; LoadLatest queries are ScanIndexForward=false, Limit=1 with a key condition on the id; SQL read constants have the documented WHERE/ORDER BY shape; memory reads hold the lock", 8)
+	c.rule("C13.consistent-reads", "every GetItemInput/QueryInput has ConsistentRead=true; LoadLatest queries are ScanIndexForward=false, Limit=1 with a key condition on the id; SQL read constants have the documented WHERE/ORDER BY shape; memory reads hold the lock", 7)
 	for _, m := range metastoreImpls(c) {
 		pkg := m.N.Obj().Pkg().Path()
 		switch m.Kind {
